@@ -28,99 +28,100 @@ def _cls(repo):
 
 
 def rule_t1(repo, col):
+    from .. import dtable
+    import re as _re
+
     c = _cls(repo)
     m = c.module
     f = c.methods.get("_token_action")
     prep = c.methods.get("prepare")
     if f is None or prep is None:
         raise AnalysisError("PrologParser._token_action / prepare missing")
-    # tables from prepare
     tables = {}
     for st in walk_no_nested(prep.node):
         if isinstance(st, ast.Assign) and len(st.targets) == 1 and is_self_attr(st.targets[0]) and isinstance(st.value, ast.List):
             name = st.targets[0].attr
             if name.startswith("_token_act"):
                 tables[name] = st
-    # variable c = ord(char)
-    cvar = None
-    for st in f.node.body:
-        if isinstance(st, ast.Assign) and isinstance(st.value, ast.Call) and dotted(st.value.func) == "ord" and isinstance(st.targets[0], ast.Name):
-            cvar = st.targets[0].id
-    if cvar is None:
-        raise AnalysisError("_token_action: c = ord(char) not found")
-    chain = [st for st in f.node.body if isinstance(st, ast.If)]
-    if len(chain) != 1:
-        raise AnalysisError("_token_action: a single if/elif chain expected")
-    cur = chain[0]
-    lo = 0
+    ch = f.params[1]
+    CODE = "ord(%s)" % ch
+    paths = dtable.extract(f.node)
     n_tables = 0
     default_seen = False
-    while True:
-        t = cur.test
-        is_range = (
-            isinstance(t, ast.Compare) and len(t.ops) == 1 and isinstance(t.ops[0], ast.Lt) and isinstance(t.left, ast.Name) and t.left.id == cvar
-            and isinstance(t.comparators[0], ast.Constant) and isinstance(t.comparators[0].value, int)
-        )
-        if is_range:
-            hi = t.comparators[0].value
-            if hi <= lo:
-                col.fail("T1", m, t, "range bounds are not increasing (%d after %d): characters in between are dispatched by the wrong branch" % (hi, lo))
-            if len(cur.body) != 1 or not isinstance(cur.body[0], ast.Return):
-                raise AnalysisError("_token_action: branch body not understood at line %d" % cur.lineno)
-            rv = cur.body[0].value
-            if isinstance(rv, ast.Subscript) and is_self_attr(rv.value):
-                n_tables += 1
-                tname = rv.value.attr
-                idx = rv.slice
-                off_ok = (
-                    isinstance(idx, ast.BinOp) and isinstance(idx.op, ast.Sub) and isinstance(idx.left, ast.Name) and idx.left.id == cvar
-                    and isinstance(idx.right, ast.Constant) and idx.right.value == lo
-                )
-                col.decide("T1", m, rv, off_ok, "index offset equals the lower bound %d" % lo,
-                           "table %s is indexed with %s but the branch covers characters %d..%d: offset must be %d" % (tname, norm(idx), lo, hi - 1, lo))
-                tab = tables.get(tname)
-                if tab is None:
-                    col.fail("T1", m, rv, "dispatch table self.%s is not assigned a list literal in prepare()" % tname)
-                else:
-                    n = len(tab.value.elts)
-                    col.decide("T1", m, tab, n == hi - lo, "%s has %d entries for characters %d..%d" % (tname, n, lo, hi - 1),
-                               "%s has %d entries but the branch c < %d after c < %d indexes %d of them: IndexError or shifted actions for some character"
-                               % (tname, n, hi, lo, hi - lo),
-                               construct="self.%s = [%d entries] for range %d..%d" % (tname, n, lo, hi - 1), function="PrologParser.prepare")
-                    for e in tab.value.elts:
-                        okm = is_self_attr(e) and repo.find_method(c, e.attr) is not None
-                        col.decide("T1", m, e, okm, "action exists", "dispatch entry %s is not a method of the parser" % norm(e),
-                                   construct="%s entry %s" % (tname, norm(e)), function="PrologParser.prepare")
-            elif is_self_attr(rv):
-                col.decide("T1", m, rv, repo.find_method(c, rv.attr) is not None, "action exists", "action %s is not a method" % norm(rv),
-                           construct="range <%d -> %s" % (hi, norm(rv)))
-            else:
-                raise AnalysisError("_token_action: return value not understood: %s" % norm(rv))
-            lo = hi
-        if len(cur.orelse) == 1 and isinstance(cur.orelse[0], ast.If):
-            cur = cur.orelse[0]
+    seen_tables = set()
+    for p_ in paths:
+        if p_.end != "return":
+            col.fail("T1", m, f.node, "_token_action can end without returning an action", construct="_token_action: fall-through", function="PrologParser._token_action")
             continue
-        default_seen = bool(cur.orelse)
-        break
-    col.decide("T1", m, chain[0], default_seen, "dispatch chain ends in a default", "the dispatch chain has no default branch: characters beyond the last range return nothing",
+        lows = []
+        his = []
+        other = False
+        for s_, t, _ in p_.conds:
+            mm = _re.match(r"^%s < (\d+)$" % _re.escape(CODE), s_)
+            if mm:
+                (his if t else lows).append(int(mm.group(1)))
+            else:
+                other = True
+        lo = max(lows) if lows else 0
+        hi = min(his) if his else None
+        v = p_.value
+        mt = _re.match(r"^self\.(_token_act\w+)\[(.+)\]$", v)
+        if mt:
+            tname, idx = mt.group(1), mt.group(2)
+            if hi is None:
+                raise AnalysisError("_token_action: table %s indexed on a path without an upper range test" % tname)
+            if hi <= lo:
+                continue  # infeasible combination of range tests
+            if (tname, lo, hi) in seen_tables:
+                continue
+            seen_tables.add((tname, lo, hi))
+            n_tables += 1
+            node = p_.stmts[-1]
+            col.decide("T1", m, node, idx == "%s - %d" % (CODE, lo), "index offset equals the lower bound %d" % lo,
+                       "table %s is indexed with %s but the branch covers characters %d..%d: offset must be %d" % (tname, idx.replace(CODE, "c"), lo, hi - 1, lo),
+                       construct="%s[c - %s] for range %d..%d" % (tname, idx.replace(CODE + " - ", ""), lo, hi - 1), function="PrologParser._token_action")
+            tab = tables.get(tname)
+            if tab is None:
+                col.fail("T1", m, node, "dispatch table self.%s is not assigned a list literal in prepare()" % tname, construct="table %s" % tname, function="PrologParser.prepare")
+                continue
+            n = len(tab.value.elts)
+            col.decide("T1", m, tab, n == hi - lo, "%s has %d entries for characters %d..%d" % (tname, n, lo, hi - 1),
+                       "%s has %d entries but the branch covering characters %d..%d indexes %d of them: IndexError or shifted actions for some character" % (tname, n, lo, hi - 1, hi - lo),
+                       construct="self.%s = [%d entries] for range %d..%d" % (tname, n, lo, hi - 1), function="PrologParser.prepare")
+            for e in tab.value.elts:
+                okm = is_self_attr(e) and repo.find_method(c, e.attr) is not None
+                col.decide("T1", m, e, okm, "action exists", "dispatch entry %s is not a method of the parser" % norm(e), construct="%s entry %s" % (tname, norm(e)), function="PrologParser.prepare")
+        elif v.startswith("self."):
+            col.decide("T1", m, p_.stmts[-1], repo.find_method(c, v[5:]) is not None, "action %s exists" % v, "action %s is not a method of the parser" % v,
+                       construct="_token_action -> %s" % v, function="PrologParser._token_action")
+        elif v == "None":
+            if hi is None:
+                default_seen = True
+        else:
+            raise AnalysisError("_token_action: return value not understood: %s" % v)
+    col.decide("T1", m, f.node, default_seen, "characters outside every range get no action (None)", "the dispatch has no default for characters beyond the last range",
                construct="_token_action: default", function="PrologParser._token_action")
     col.floor("T1.dispatch_tables", n_tables, 4)
-    # next_token: None action -> ParseError subclass, before calling
+    # next_token: a missing action raises a ParseError subclass before it is called
     nt = c.methods.get("next_token")
     if nt is None:
         raise AnalysisError("PrologParser.next_token missing")
     ef = ExcFlow(repo)
+    paths = dtable.extract(nt.node)
     ok = False
-    for st in nt.node.body:
-        if isinstance(st, ast.If) and "is None" in norm(st.test) and any(isinstance(s, ast.Raise) for s in st.body):
-            r = [s for s in st.body if isinstance(s, ast.Raise)][0]
-            cl = ef.exc_class_of(m, r.exc)
-            if isinstance(cl, ClassInfo) and repo.is_subclass(cl, "problog.errors", "ParseError"):
-                ok = True
-            break
-        if any(isinstance(s, ast.Call) and isinstance(s.func, ast.Name) and s.func.id == "action" for s in ast.walk(st)):
-            break
-    col.decide("T1", m, nt.node, ok, "next_token raises a ParseError subclass when no action exists",
+    bad = False
+    for p_ in paths:
+        cd = [(s_, t) for s_, t, _ in p_.conds]
+        none_action = [t for s_, t in cd if s_.startswith("self._token_action(") and s_.endswith("is None")]
+        if none_action and none_action[0]:
+            called = any(fn.startswith("self._token_action(") for fn, a, _ in p_.calls)
+            if p_.end == "raise" and not called:
+                r = [st for st in p_.stmts if isinstance(st, ast.Raise)][-1]
+                cl = ef.exc_class_of(m, r.exc)
+                ok = isinstance(cl, ClassInfo) and repo.is_subclass(cl, "problog.errors", "ParseError")
+            else:
+                bad = True
+    col.decide("T1", m, nt.node, ok and not bad, "next_token raises a ParseError subclass when no action exists",
                "next_token must test the action for None and raise a ParseError subclass before calling it",
                construct="next_token: None action guard", function="PrologParser.next_token")
 
@@ -232,40 +233,61 @@ def _tokenize_invariant(repo, col):
     f = c.methods.get("_tokenize")
     if f is None:
         raise AnalysisError("PrologParser._tokenize missing")
-    ok = False
+    sparam = f.params[1]
+    len_alias = {"len(%s)" % sparam}
     for st in walk_no_nested(f.node):
-        if isinstance(st, ast.While):
-            t = norm(st.test)
-            calls = [s for s in ast.walk(st) if isinstance(s, ast.Call) and dotted(s.func) == "self.next_token"]
-            if calls and t in ("p < s_len", "p < len(s)", "pos < len(s)"):
-                a = calls[0].args
-                if len(a) == 2 and norm(a[1]) == t.split(" < ")[0]:
-                    if "s_len" in t:
-                        ok = any(isinstance(x, ast.Assign) and norm(x) == "s_len = len(s)" for x in walk_no_nested(f.node))
-                    else:
-                        ok = True
-            wnode = st
-    col.decide("T2", c.module, f.node, ok, "tokenizer actions are entered with pos < len(s) (loop guard of _tokenize)",
+        if isinstance(st, ast.Assign) and isinstance(st.targets[0], ast.Name) and norm(st.value) == "len(%s)" % sparam:
+            len_alias.add(st.targets[0].id)
+    verdict = None
+    for st in walk_no_nested(f.node):
+        if not isinstance(st, ast.While):
+            continue
+        calls = [x for x in ast.walk(st) if isinstance(x, ast.Call) and dotted(x.func) == "self.next_token" and len(x.args) == 2 and norm(x.args[0]) == sparam]
+        if not calls:
+            continue
+        pv = norm(calls[0].args[1])
+        t = st.test
+        if isinstance(t, ast.Compare) and len(t.ops) == 1:
+            l, r = norm(t.left), norm(t.comparators[0])
+            op = type(t.ops[0])
+            if (l == pv and r in len_alias and op is ast.Lt) or (r == pv and l in len_alias and op is ast.Gt):
+                verdict = True
+            elif (l == pv and r in len_alias) or (r == pv and l in len_alias):
+                verdict = False  # recognised, but not a strict bound
+    if verdict is None:
+        raise AnalysisError("_tokenize: loop `while pos < len(s): ... self.next_token(s, pos)` not recognised")
+    col.decide("T2", c.module, f.node, verdict, "tokenizer actions are entered with pos < len(s) (loop guard of _tokenize)",
                "_tokenize no longer guarantees pos < len(s) when it calls next_token: every look-ahead guard of the form pos + 1 == len(s) is unsound",
                construct="_tokenize: while p < len(s): next_token(s, p)", function="PrologParser._tokenize")
-    return ok
+    return verdict
 
 
-T2_TABLE = {
-    # (function, construct) -> (reason, validator)
-    ("PrologParser.label_tokens", "tokens[i + 1]", "n = tokens[i + 1]"): "unreachable for the last token: the `i == l` branch clears t.unop, and the statement is guarded by `t.unop and t.atom`",
-}
+T2_TABLE_REASON = "unreachable for the last token: the `index == last` branch clears the token's unop, and the statement is guarded by `<token>.unop and <token>.atom`"
 
 
-def _validate_label_tokens_row(func):
-    """the table row's precondition: the `i == l` branch assigns t.unop = None and the site is under `if t.unop and ...`"""
-    ok_clear = False
-    for st in walk_no_nested(func.node):
-        if isinstance(st, ast.If) and norm(st.test) in ("i == l", "l == i"):
-            for s in st.body:
-                if isinstance(s, ast.Assign) and norm(s.targets[0]) == "t.unop" and isinstance(s.value, ast.Constant) and not s.value.value:
-                    ok_clear = True
-    return ok_clear
+def _label_tokens_row(func, sub, stmt, last_alias, facts_here=frozenset()):
+    """Is `sub` the look-ahead `n = tokens[i + 1]` of label_tokens that is guarded by `t.unop and t.atom`, and does the `i == last` branch clear t.unop?
+    Returns None (not this row), True (row valid) or False (row's precondition broken).  Names are taken from the enumerate loop."""
+    if func.qualname != "PrologParser.label_tokens" or not last_alias:
+        return None
+    loops = [st for st in walk_no_nested(func.node) if isinstance(st, ast.For) and isinstance(st.iter, ast.Call) and dotted(st.iter.func) == "enumerate"
+             and isinstance(st.target, ast.Tuple) and len(st.target.elts) == 2 and all(isinstance(e, ast.Name) for e in st.target.elts)]
+    if len(loops) != 1:
+        return None
+    ivar, tvar = loops[0].target.elts[0].id, loops[0].target.elts[1].id
+    lasts = [l for (l, seq, iv) in last_alias if iv == ivar]
+    if not lasts:
+        return None
+    # the site must be guarded by `<t>.unop` (enclosing if or an earlier conjunct of the same condition)
+    if ("%s.unop" % tvar, True) not in facts_here:
+        return None
+    for st in loops[0].body:
+        if isinstance(st, ast.If) and norm(st.test) in ("%s == %s" % (ivar, lasts[0]), "%s == %s" % (lasts[0], ivar)):
+            for s_ in st.body:
+                if isinstance(s_, ast.Assign) and norm(s_.targets[0]) == "%s.unop" % tvar and isinstance(s_.value, ast.Constant) and not s_.value.value:
+                    return True
+            return False
+    return False
 
 
 def rule_t2(repo, col):
@@ -313,12 +335,12 @@ def rule_t2(repo, col):
                 col.ok("T2", m, sub, "guarded: %s" % why, function=f.qualname)
                 continue
             stmt = node.ast if node.kind == "stmt" else None
-            key = (f.qualname, norm(sub), norm(stmt) if stmt is not None else "")
-            if key in T2_TABLE:
-                if f.qualname == "PrologParser.label_tokens" and not _validate_label_tokens_row(f):
-                    col.fail("T2", m, sub, "table row no longer valid: the `i == l` branch does not clear t.unop, so the last token can reach tokens[i + 1]", function=f.qualname)
-                else:
-                    col.ok("T2", m, sub, "table: %s" % T2_TABLE[key], function=f.qualname)
+            row = _label_tokens_row(f, sub, stmt, last_alias, st)
+            if row is True:
+                col.ok("T2", m, sub, "table: %s" % T2_TABLE_REASON, function=f.qualname)
+                continue
+            if row is False:
+                col.fail("T2", m, sub, "table row no longer valid: the `index == last` branch does not clear the token's unop, so the last token can reach %s" % norm(sub), function=f.qualname)
                 continue
             col.fail(
                 "T2",
@@ -329,7 +351,7 @@ def rule_t2(repo, col):
                 function=f.qualname,
                 construct="%s in %s" % (norm(sub), norm(node.ast)[:90]),
             )
-    col.floor("T2.lookahead_sites", n_sites, 9)
+    col.floor("T2.lookahead_sites", n_sites, 5)
 
 
 T3_TABLE = {
@@ -364,6 +386,33 @@ def rule_t3(repo, col):
     col.floor("T3.raise_sites", n, 15)
 
 
+def _returns_pair(repo, c, f, seen):
+    """None when f returns a 2-tuple (or the result of a method that does) or raises on every path; else a description of the bad exit"""
+    if f.name in seen:
+        return None
+    seen = seen | {f.name}
+    g = cfgmod.build(f.node)
+    reach = g.reachable()
+    falls = [p for p, _ in g.exit.pred if p.id in reach and not (p.kind == "stmt" and isinstance(p.ast, ast.Return))]
+    if falls:
+        return "can fall off its end (returns None -> RuntimeError in next_token)"
+    for node in g.stmt_nodes():
+        if node.id in reach and node.kind == "stmt" and isinstance(node.ast, ast.Return):
+            v = node.ast.value
+            if isinstance(v, ast.Tuple) and len(v.elts) == 2:
+                continue
+            if isinstance(v, ast.Call) and is_self_attr(v.func):
+                callee = repo.find_method(c, v.func.attr)
+                if callee is None:
+                    return "returns the result of self.%s, which is not a method of the parser" % v.func.attr
+                sub = _returns_pair(repo, c, callee, seen)
+                if sub is None:
+                    continue
+                return "returns self.%s(...), which %s" % (v.func.attr, sub)
+            return "returns %s, not a (token, position) pair" % (norm(v) if v is not None else "None")
+    return None
+
+
 def rule_t4(repo, col):
     c = _cls(repo)
     m = c.module
@@ -372,20 +421,7 @@ def rule_t4(repo, col):
         if not (name.startswith("_token_") or name == "_skip") or name == "_token_action":
             continue
         n += 1
-        g = cfgmod.build(f.node)
-        reach = g.reachable()
-        falls = [p for p, _ in g.exit.pred if p.id in reach and not (p.kind == "stmt" and isinstance(p.ast, ast.Return))]
-        bad = None
-        if falls:
-            bad = "can fall off its end (returns None -> RuntimeError in next_token)"
-        for node in g.stmt_nodes():
-            if node.id in reach and node.kind == "stmt" and isinstance(node.ast, ast.Return):
-                v = node.ast.value
-                if isinstance(v, ast.Tuple) and len(v.elts) == 2:
-                    continue
-                if isinstance(v, ast.Call) and is_self_attr(v.func) and v.func.attr.startswith("_token_"):
-                    continue
-                bad = "returns %s, not a (token, position) pair" % (norm(v) if v is not None else "None")
+        bad = _returns_pair(repo, c, f, frozenset())
         col.decide("T4", m, f.node, bad is None, "%s returns a pair or raises on every path" % name,
                    "tokenizer action %s %s" % (name, bad), construct="def %s: return shape" % name, function="PrologParser.%s" % name)
     col.floor("T4.token_actions", n, 30)
@@ -441,34 +477,37 @@ def rule_t5(repo, col):
     f = c.methods.get("_token_number")
     if f is None:
         raise AnalysisError("PrologParser._token_number missing")
-    # the branch that yields SPECIAL_FLOAT
-    chain = [st for st in f.node.body if isinstance(st, ast.If)]
-    if len(chain) != 1:
-        raise AnalysisError("_token_number: one if-chain expected")
-    cur = chain[0]
-    float_test = None
-    int_default = False
-    hex_first = False
-    while True:
-        rets = [norm(r) for r in cur.body if isinstance(r, ast.Return)]
-        if any("SPECIAL_FLOAT" in r for r in rets):
-            float_test = cur.test
-        if any("SPECIAL_HEX_INTEGER" in r for r in rets) and float_test is None:
-            hex_first = True
-        if len(cur.orelse) == 1 and isinstance(cur.orelse[0], ast.If):
-            cur = cur.orelse[0]
+    from .. import dtable
+    paths = dtable.extract(f.node)
+    n_int = n_float = 0
+    bad = None
+    hex_ok = True
+    for p_ in paths:
+        if p_.end != "return":
             continue
-        int_default = any(isinstance(r, ast.Return) and "SPECIAL_INTEGER" in norm(r) for r in cur.orelse)
-        break
-    if float_test is None or not int_default:
-        raise AnalysisError("_token_number: float branch / integer default not found")
-    tested = set(n.value for n in ast.walk(float_test) if isinstance(n, ast.Constant) and isinstance(n.value, str))
-    missing = sorted(markers - tested)
-    col.decide("T5", m, float_test, not missing, "the float branch tests every non-digit character the number regex admits (%s)" % sorted(markers),
-               "RE_FLOAT admits %s in a decimal number but _token_number classifies a token as float only when it contains one of %s: a token with %s falls into the "
-               "integer default and int() of it raises ValueError instead of a ParseError" % (sorted(markers), sorted(tested), missing),
-               function="PrologParser._token_number")
-    col.decide("T5", m, chain[0], hex_first and "x" in hexlits, "hexadecimal tokens are recognised before the float test (their digits include e/E)",
+        v = p_.value or ""
+        false_consts = set()
+        true_consts = set()
+        for s_, t, nd in p_.conds:
+            for sub in ast.walk(ast.parse(s_, mode="eval")):
+                if isinstance(sub, ast.Constant) and isinstance(sub.value, str):
+                    (true_consts if t else false_consts).add(sub.value)
+        if "SPECIAL_INTEGER" in v and "HEX" not in v:
+            n_int += 1
+            missing = sorted(markers - false_consts)
+            if missing:
+                bad = "a token is classified as integer on a path that never excluded %s (RE_FLOAT admits %s in a decimal number): int() of such a token raises ValueError instead of a ParseError" % (missing, sorted(markers))
+            if "0x" not in false_consts and "0X" not in false_consts:
+                hex_ok = False
+        elif "SPECIAL_FLOAT" in v:
+            n_float += 1
+            if "0x" not in false_consts:
+                hex_ok = False
+    if n_int < 1 or n_float < 1:
+        raise AnalysisError("_token_number: integer/float classification paths not found")
+    col.decide("T5", m, f.node, bad is None, "the integer class excludes every non-digit character the number regex admits (%s)" % sorted(markers),
+               "_token_number: %s" % bad, construct="_token_number: float markers vs RE_FLOAT", function="PrologParser._token_number")
+    col.decide("T5", m, f.node, hex_ok and "x" in hexlits, "hexadecimal tokens are recognised before the float/integer test (their digits include e/E)",
                "the hexadecimal branch must come before the float test: hex digits include 'e'/'E'", construct="_token_number: branch order", function="PrologParser._token_number")
 
 
